@@ -365,6 +365,11 @@ def brun : List HCall → BState → BState
   | [], s => s
   | c :: cs, s => brun cs (bstep s c)
 
+/-- the calls builder `who` issues in an interleaved schedule, in order -/
+def callsOf (who : Bool) : List (Bool × HCall) → List HCall
+  | [] => []
+  | (b, c) :: es => if b = who then c :: callsOf who es else callsOf who es
+
 /-! ### which tables are shared: read off the extracted table -/
 
 /-- the class attribute `NetworkBuilder.<attr>` is a table shared between builders when the scan found it as a
